@@ -101,6 +101,9 @@ func runTTLInBubble(cs *Case) (w *World) {
 	w.primary = c
 	w.prefill(w.primary, cs.Cfg.Prefill)
 	prefillModel(w.model, cs.Cfg.Prefill)
+	if ns := cs.Cfg.Params["ttl_full_ns"]; ns > 0 && cs.Cfg.Prefill != nil {
+		w.prefillDeadlines(c, cs.Cfg.Prefill, tt.start.Add(time.Duration(ns)))
+	}
 	w.sim = NewSim(NewRng(cs.SchedSeed, 3), cs.Strategy, cs.Sched)
 	if cs.Sched == nil {
 		w.sim.replay = nil
@@ -270,6 +273,27 @@ func runTTLInBubble(cs *Case) (w *World) {
 	w.stats.EndState = w.model.stateHash()
 	w.stats.Nontrivial = tt.passes > 0 && w.stats.Commits > 0
 	return w
+}
+
+// prefillDeadlines gives every row of the blocks a prefill keeps full the same far deadline,
+// in the collection (one hand-built commit per block) and in the model.
+func (w *World) prefillDeadlines(c *column.Collection, p *Prefill, at time.Time) {
+	for _, b := range p.KeepFull {
+		buf := commit.NewBuffer(1 << 14)
+		buf.Reset("expire")
+		for i := uint32(0); i < 1<<14; i++ {
+			off := uint32(b)<<14 + i
+			if r, ok := w.model.Rows[off]; ok {
+				buf.PutInt64(commit.Put, off, at.UnixNano())
+				r["expire"] = MVal{U: uint64(at.UnixNano())}
+				w.model.touch(off, "expire")
+			}
+		}
+		if err := c.Replay(commit.Commit{ID: 995 + uint64(b), Chunk: commit.Chunk(b), Updates: []*commit.Buffer{buf}}); err != nil {
+			panic(err)
+		}
+	}
+	w.stats.probe("ttl-full-block-ahead")
 }
 
 // restoredExpiry checks that deadlines not only survive snapshot/restore but are acted on:
